@@ -51,7 +51,7 @@ def bounds(tier):
     return {
         "alphabet": SIGMA,
         "max_len": 5 if tier == "quick" else 6,
-        "word_alphabet_max_len": 7 if tier == "quick" else 9,
+        "word_alphabet_max_len": 7 if tier == "quick" else 8,
         "word_alphabet": SIGMA_WORDS,
     }
 
@@ -59,7 +59,7 @@ def bounds(tier):
 def shards(tier):
     out = [("seq", s) for s in seq_shards(SIGMA, 5 if tier == "quick" else 6)]
     # deeper over words and the main separators only: up to 4 (quick) / 5 (thorough) words in every case pattern
-    out += [("words", s) for s in seq_shards(SIGMA_WORDS, 7 if tier == "quick" else 9, min_len=6 if tier == "quick" else 7)]
+    out += [("words", s) for s in seq_shards(SIGMA_WORDS, 7 if tier == "quick" else 8, min_len=6 if tier == "quick" else 7, prefix_len=3)]
     out += [("mw", 0), ("mw", 1)]
     return out
 
